@@ -146,3 +146,61 @@ func hugeFile(c *vf.Ctx, net string, F uint64) {
 		}
 	}
 }
+
+// legacySiafunds: below the ephemeral-output height the value a v2 transaction claims for a siafund parent created
+// earlier in the block is not compared with the created element. On a network whose ephemeral-output height lies above
+// the allow height, every height below it is probed with an in-block siafund chain whose second transaction claims an
+// extreme parent value (outputs equal to it, so only arithmetic can object). A tax pool is built up first (a contract
+// formation), since the claim computation multiplies by the claimed value.
+func legacySiafunds(c *vf.Ctx, only *Case) {
+	net := "v2-eph5"
+	keys := chain.NewKeys(c.Seed)
+	sp := chain.Spec(net)
+	w, p := chain.NewWorld(sp, keys, chain.DefaultAlloc(keys), chain.Options{})
+	if p != nil {
+		c.HarnessError("legacy siafunds: genesis: %v", p)
+		return
+	}
+	for w.ChildHeight() < sp.Ephemeral {
+		h := w.ChildHeight()
+		bc := w.NewBlockCtx()
+		if pp, ok := bc.PickSF(func(cl int) bool { return cl == chain.AddrV2 || cl == chain.AddrV1 }); ok && h >= sp.Allow && pp.SiafundOutput.Value > 2 {
+			// t1 splits a siafund output in two; t2 spends both new outputs as in-block parents under claimed values whose
+			// 64-bit sum wraps around to a small number (its single output), claiming the whole pool (claim start 0)
+			t1 := types.V2Transaction{SiafundInputs: []types.V2SiafundInput{{Parent: pp, ClaimAddress: keys.Addr(chain.AddrV2)}},
+				SiafundOutputs: []types.SiafundOutput{{Value: pp.SiafundOutput.Value - 1, Address: keys.Addr(chain.AddrV2)}, {Value: 1, Address: keys.Addr(chain.AddrV2)}}}
+			w.SignV2(&t1)
+			for _, pair := range [][2]uint64{{math.MaxUint64, 2}, {1 << 63, 1<<63 + 5000}, {math.MaxUint64 - 9999, 10000}, {1 << 62, 3<<62 + 7}} {
+				what := fmt.Sprintf("claimed=%d+%d", pair[0], pair[1])
+				if only != nil && only.Path != what {
+					continue
+				}
+				e0, e1 := t1.EphemeralSiafundOutput(0), t1.EphemeralSiafundOutput(1)
+				e0.SiafundOutput.Value, e1.SiafundOutput.Value = pair[0], pair[1]
+				e0.ClaimStart, e1.ClaimStart = types.ZeroCurrency, types.ZeroCurrency
+				t2 := types.V2Transaction{SiafundInputs: []types.V2SiafundInput{{Parent: e0, ClaimAddress: keys.Addr(chain.AddrV2)}, {Parent: e1, ClaimAddress: keys.Addr(chain.AddrV2)}},
+					SiafundOutputs: []types.SiafundOutput{{Value: pair[0] + pair[1], Address: keys.Addr(chain.AddrV2)}}}
+				w.SignV2(&t2)
+				b, bs := w.BuildBlock(nil, []types.V2Transaction{t1, t2}, chain.BlockOpts{})
+				c.Count("evaluations", 1)
+				c.Count("legacy_siafund_probes", 1)
+				c.Distinct(net, "legacy-sf", what, h)
+				if pv, st := vf.Try(func() { _ = consensus.ValidateBlock(w.CS, b, bs) }); pv != nil {
+					c.Violate("validate|ValidateBlock|panic:"+panicClass(pv)+"|in-block siafund parents claimed with values whose sum wraps, below the ephemeral-output height",
+						fmt.Sprintf("[%s height %d] ValidateBlock panicked on a block whose second transaction claims in-block siafund parents worth %d and %d SF (64-bit sum %d): %v\n%s", net, h, pair[0], pair[1], pair[0]+pair[1], pv, firstLines(st, 14)),
+						Case{Half: "validation", Network: net, Seed: c.Seed, Target: "legacy-siafunds", Path: what})
+				}
+			}
+		}
+		// history: a contract formation first (tax pool), then empty blocks
+		bc2 := w.NewBlockCtx()
+		if h >= sp.Allow && len(w.Store.V2FC) == 0 {
+			chain.V2Form(3, 2, 100).Do(bc2)
+		}
+		b, bs := w.BuildBlock(bc2.V1, bc2.V2, chain.BlockOpts{})
+		if err, pr := w.Apply(b, bs); err != nil || pr != nil {
+			c.HarnessError("legacy siafunds: history block rejected: %v %v", err, pr)
+			return
+		}
+	}
+}
